@@ -540,11 +540,13 @@ impl Parser {
     ///
     /// Source: `OpenServer 5.0.6 screen(HW)`
     /// Status: SCO private
-    pub(crate) fn restore_cursor_position(&mut self, caret: &mut Caret) {
+    pub(crate) fn restore_cursor_position(&mut self, buf: &Buffer, caret: &mut Caret) {
         // CSI u
         // RCP - Restore Cursor Position
         self.state = EngineState::Default;
         caret.pos = self.saved_pos;
+        // the screen may have scrolled since the position was saved
+        buf.terminal_state.limit_caret_pos(buf, caret);
     }
 
     /// Sequence: `CSI Pn X`</p>
